@@ -95,7 +95,9 @@ Definition check (c : case) : N :=
     | None =>
       (* not an uplink channel: nothing is claimed, the model must still agree *)
       code ((negb (is_ok (get_uplink_channel t ch)) || (ch <? 0))
-            && oz_eqb (get_rx1_channel_index cfg ch) o_idx) true
+            && oz_eqb (get_rx1_channel_index cfg ch) o_idx)
+           (* a negative index is answered with an error *)
+           (if ch <? 0 then is_err o_idx else true)
     end
   | CRx1ChHist i ops errs n ch f o_idx o_down o_freq =>
     let cfg := cfg_at i in
@@ -135,9 +137,9 @@ Definition check (c : case) : N :=
   | CPing i devaddr beacon o =>
     let cfg := cfg_at i in
     code (oz_eqb (get_ping_slot_frequency cfg devaddr beacon) o)
-         (if (0 <=? beacon) && (0 <=? devaddr) && (devaddr <? 2 ^ 32) then
+         (if (0 <=? devaddr) && (devaddr <? 2 ^ 32) then
             match region_of (c_name cfg) with
-            | Some reg => ping_slot_ok reg devaddr beacon o
+            | Some reg => ping_slot_any_ok reg devaddr beacon o
             | None => false
             end
           else true)
